@@ -21,6 +21,7 @@ import (
 	"runtime/debug"
 	"sort"
 	"strconv"
+	"runtime"
 	"strings"
 	"sync"
 	"syscall"
@@ -182,15 +183,18 @@ func Generated[C any](t *testing.T, s Spec[C]) {
 				os.Exit(2)
 			}
 		}
+		// the oracle first: a classifier may itself call the code under test, and must
+		// not meet a hang or a crash before the oracle (which bounds both) has seen the case
+		if err := Safe(func() error { return s.Prop(c) }); err != nil {
+			ev.Default.Case(c, []string{"failed"}, true)
+			last, haveErr, lastMsg = c, true, err.Error()
+			rt.Fatalf("%s/%s: %v", s.ID, s.Name, err)
+		}
 		classes, nt := []string(nil), true
 		if s.Classify != nil {
 			classes, nt = s.Classify(c)
 		}
 		ev.Default.Case(c, classes, nt)
-		if err := Safe(func() error { return s.Prop(c) }); err != nil {
-			last, haveErr, lastMsg = c, true, err.Error()
-			rt.Fatalf("%s/%s: %v", s.ID, s.Name, err)
-		}
 	})
 }
 
@@ -238,15 +242,17 @@ func Regress[C any](t *testing.T, s Spec[C]) {
 		}
 		_ = r
 		n++
+		if err := Safe(func() error { return s.Prop(c) }); err != nil {
+			ev.Default.Case(c, []string{"regress", "failed"}, true)
+			SaveReplay(s.ID, s.Name, c, err.Error())
+			t.Errorf("%s/%s regress %s: %v", s.ID, s.Name, filepath.Base(f), err)
+			continue
+		}
 		classes, nt := []string(nil), true
 		if s.Classify != nil {
 			classes, nt = s.Classify(c)
 		}
 		ev.Default.Case(c, append(classes, "regress"), nt)
-		if err := Safe(func() error { return s.Prop(c) }); err != nil {
-			SaveReplay(s.ID, s.Name, c, err.Error())
-			t.Errorf("%s/%s regress %s: %v", s.ID, s.Name, filepath.Base(f), err)
-		}
 	}
 	t.Logf("replayed %d saved cases", n)
 }
@@ -302,14 +308,48 @@ func cpuSeconds() float64 {
 	return float64(ru.Utime.Sec+ru.Stime.Sec) + float64(ru.Utime.Usec+ru.Stime.Usec)/1e6
 }
 
+// boundedBody exists to give the goroutine that runs a bounded call a frame that can be
+// found in a goroutine dump.
+//
+//go:noinline
+func boundedBody(f func() error) error { return Safe(f) }
+
+// blockedState returns the wait state of the goroutine running boundedBody if that
+// state is one a goroutine only leaves when another goroutine acts (channel send or
+// receive, select, lock, wait group, condition variable), "" otherwise.
+func blockedState() string {
+	buf := make([]byte, 1<<20)
+	buf = buf[:runtime.Stack(buf, true)]
+	for _, g := range strings.Split(string(buf), "\n\n") {
+		if !strings.Contains(g, "run.boundedBody(") {
+			continue
+		}
+		head, _, _ := strings.Cut(g, "\n")
+		i, j := strings.IndexByte(head, '['), strings.IndexByte(head, ']')
+		if i < 0 || j < i {
+			return ""
+		}
+		st, _, _ := strings.Cut(head[i+1:j], ",")
+		for _, b := range []string{"chan send", "chan receive", "select", "semacquire", "sync.Mutex.Lock", "sync.RWMutex", "sync.WaitGroup.Wait", "sync.Cond.Wait"} {
+			if strings.HasPrefix(st, b) {
+				return st
+			}
+		}
+		return ""
+	}
+	return ""
+}
+
 // Bounded is the termination oracle: it runs f (normal cost: microseconds) in
 // its own goroutine and reports a violation only if the process has burnt more
-// than 20 s of CPU time on it; a stall without CPU consumption is
-// inconclusive and ends the process with status 2. Panics in f are returned
+// than 20 s of CPU time on it, or if the call sits parked on a channel, lock or
+// wait group for ten seconds while the process consumes no CPU (a deadlock: that
+// state does not depend on the machine's load); any other stall without CPU
+// consumption is inconclusive and ends the process with status 2. Panics in f are returned
 // as errors.
 func Bounded(f func() error) error {
 	done := make(chan error, 1)
-	go func() { done <- Safe(f) }()
+	go func() { done <- boundedBody(f) }()
 	select {
 	case err := <-done:
 		return err
@@ -317,6 +357,7 @@ func Bounded(f func() error) error {
 	}
 	cpu0 := cpuSeconds()
 	start := time.Now()
+	blocked := 0
 	tick := time.NewTicker(time.Second)
 	defer tick.Stop()
 	for {
@@ -324,6 +365,17 @@ func Bounded(f func() error) error {
 		case err := <-done:
 			return err
 		case <-tick.C:
+			// a goroutine that is parked on a channel, a lock or a wait group is not
+			// waiting for the machine: ten seconds in that state without any CPU
+			// consumed by the process is a deadlock, whatever the load
+			if st := blockedState(); st != "" {
+				blocked++
+				if blocked >= 10 && cpuSeconds()-cpu0 < 0.5 {
+					return fmt.Errorf("did not terminate: the call has been parked in state %q for %d s without consuming CPU (deadlock)", st, blocked)
+				}
+			} else {
+				blocked = 0
+			}
 			if used := cpuSeconds() - cpu0; used > 20 {
 				return fmt.Errorf("did not terminate: %.0f s of CPU consumed on a single input (normal cost: microseconds)", used)
 			}
